@@ -123,6 +123,12 @@ def main():
     else:
         obligations, discharged, assumptions, thm_log = common.check_theorems(prop)
     broken_theorems = [t for t in obligations if t not in discharged] if ok else ["<coq build failed>"]
+    coqchk = None
+    if ok and tier == "thorough" and not args.replay and os.environ.get("VERIF_NO_COQCHK") != "1":
+        chk_ok, chk_axioms, chk_txt = common.run_coqchk(prop)
+        coqchk = {"ok": chk_ok, "axioms_or_unsafe": chk_axioms, "summary": chk_txt}
+        if not chk_ok:
+            broken_theorems.append("<coqchk: %s>" % (chk_axioms or "failed"))
 
     # 2. regression witnesses of repaired defects ----------------------------------------------------
     wit_ran, wit_failed = run_witnesses(prop, spec)
@@ -209,6 +215,7 @@ def main():
             "trusted_base": spec["trusted_base"],
             "theorems": obligations,
             "print_assumptions": assumptions,
+            "coqchk": coqchk,
             "evaluations": evaluations,
             "distinct_nontrivial": len(distinct),
             "rule": spec["rule"],
